@@ -18,8 +18,41 @@ CHECKS = {
    text="Exploration: every commit of every honest node in every run is checked against one global committed chain built from independently computed block digests and parent links; scenarios mix view changes, partitions, crashes, resets, slow nodes and (where enabled) Byzantine authorities within the f bound.",
    note="Byzantine behaviour is the strategy mix of the adversary module, not every behaviour."),
  "C02": dict(ref="5/C02", tech="deterministic simulation (cluster world) + seeded fault/schedule search; per-node commit-sequence monitor",
-   text="Exploration: each node's commit channel is checked block by block (first block is a child of genesis, each next block's parent is the block delivered just before, genesis never delivered); the generator forces view-change chain shapes (slow leaders on seeded rounds, partial delivery) and the batch fails as 'not reached' unless commits across round gaps occurred.",
+   text="Exploration: each node's commit channel is checked block by block (first block is a child of genesis, each next block's parent is the block delivered just before, genesis never delivered); the generator forces view-change chain shapes (slow leaders on seeded rounds, partial delivery) and the batch fails as 'not reached' unless commits across round gaps and multi-ancestor commits occurred.",
    note="Found and repaired a genuine defect (see known_findings.json)."),
+ "C03": dict(ref="5/C03", tech="deterministic simulation + seeded fault/schedule search; wire monitor on votes, own signatures inside emitted QCs, and timeouts, ordered per connection",
+   text="Exploration: every vote an honest node puts on the wire (and every signature of its own inside QCs it emits) is checked: one block per round, rounds strictly increasing and never at or below an earlier timeout on the same link, voted block extends a QC of the previous round or is justified by a TC whose highest reported QC round does not exceed the block's QC.",
+   note="Orders are compared only within one sender-destination link (FIFO by construction); votes a node casts as next leader are seen only through QCs it later emits."),
+ "C05": dict(ref="5/C05", tech="deterministic simulation + seeded fault/schedule search; commit-justification monitor (certified consecutive 2-chain shown to the node, or ancestor of such a commit)",
+   text="Exploration: each commit must be justified by a valid QC (independently verified) for a child of round +1 that was delivered to the node, emitted by it, or assemblable from votes delivered to it; otherwise it must be an ancestor of a justified commit of the same node. Slow-leader faults produce gaps at both positions of the 2-chain.",
+   note="Uses delivered-by-then as the evidence set (a superset of processed-by-then), so the oracle is only ever more permissive than the statement."),
+ "C06": dict(ref="5/C06", tech="deterministic simulation + seeded crash/delay search; bounded-liveness monitor after stabilisation",
+   text="Exploration with bounded liveness: up to f (by stake) crashes at arbitrary instants, heavy-tail delays and stalls before a stabilisation instant, timely delivery afterwards; every live node's highest committed round must grow in every window of (2f+4) max-timeouts + sync_retry_delay + 7 s.",
+   note="The bound is calibrated (worst observed gap stays below a third of the window on the unchanged tree). One structural known finding (unequal stakes, see known_findings.json) is reported as KNOWN-FINDING."),
+ "C07": dict(ref="5/C07", tech="deterministic simulation + seeded isolation/heal search; catch-up monitor over commit sequences and sync traffic",
+   text="Exploration with bounded liveness: a seeded node is cut off for a seeded interval while the others commit (with or without view changes), then healed (optionally with a mute first sync target and clock jumps); by the deadline its committed round must reach what the others had one liveness window earlier, its sequence obeys the C02/C01 monitors, and sync replies from helpers equal the originally proposed block.",
+   note="Deadline includes the reliable sender's reconnection back-off (up to twice the isolation, capped at 62 s)."),
+ "C08": dict(ref="5/C08", tech="deterministic simulation + seeded fault/schedule search; store-write tap versus vote and commit instants",
+   text="Exploration: at the instant a vote for a foreign block is written to the wire and at every commit, each payload digest must already be a key in that node's store (write observed through the store tap with an earlier sequence number).",
+   note="Commit instants are observed when the harness drains the commit channel (slightly later than the send)."),
+ "C09": dict(ref="5/C09", tech="deterministic simulation + seeded fault/schedule search; proposer monitor against an independent sorted-key round robin",
+   text="Exploration: every voted block must be authored and signed by the independently computed leader of its round; over any n consecutive voted rounds the leaders are n distinct authorities; no honest authority emits two different blocks for one round; committee files are written in a different insertion order per node.",
+   note="Equivocation is judged on blocks seen on the wire."),
+ "C10": dict(ref="5/C10", tech="deterministic simulation + seeded fault/schedule search; evidence-based round monitor and timeout high-QC monitor",
+   text="Exploration: an honest node emitting a vote/timeout/proposal for round r>1 must have been shown a valid QC/TC of round >= r-1 or quorum votes/timeouts to assemble one; per link the acting round never decreases; first emissions of its own proposals have increasing rounds; each timeout's QC is at least the QC of blocks voted earlier and of earlier timeouts on that link and below the timeout's round.",
+   note="Cross-connection orders are not compared."),
+ "C11": dict(ref="5/C11", tech="deterministic simulation in two builds (default and benchmark feature) + seeded size/timing search; conservation, order, seal-rule and content-addressing monitors on wire and store tap",
+   text="Exploration in both build configurations: transactions of sizes 0,1,8,9,batch_size-1,batch_size,batch_size+1,multiples, with arrival gaps around the seal timer, must be released exactly once, in per-connection order, batches sealed by size or within max_batch_delay, every batch stored under SHA-512/256 of its exact bytes and proposed under that digest.",
+   note="Found and repaired a genuine defect in the benchmark build (see known_findings.json). Empty transactions are attributed by count only."),
+ "C12": dict(ref="5/C12", tech="deterministic simulation + seeded ACK-delay/mute/stake search; ACK-pairing tap versus store-write and proposal instants",
+   text="Exploration: when a node's store applies the write of its own batch, and when it proposes its digest, the peers whose acknowledgement frames (paired per connection with the batch frame) had been written by then, plus the node, must hold a quorum of stake (computed independently).",
+   note="'Sent by the peer' is earlier than 'received by the node' (permissive direction). One known finding (own batch re-entering via a peer) is reported as KNOWN-FINDING."),
+ "C13": dict(ref="5/C13", tech="deterministic simulation + seeded load/missed-broadcast search; end-to-end monitor at a bounded deadline",
+   text="Exploration with bounded liveness: without crashes or view-change faults, every transaction submitted before the load ends must be in a batch referenced by a block committed by every node, with the batch bytes stored by each, by load end + 1 s + 3 x (sync_retry_delay + 8 s); nodes whose mempool links are cut miss broadcasts and must fetch the batches.",
+   note="Required probes ensure batch requests and helper replies actually occurred."),
+ "C19": dict(ref="5/C19", tech="deterministic simulation + seeded fault/schedule search; independent certificate checker on every emitted QC/TC",
+   text="Exploration: every QC and TC an honest node emits (in proposals, timeouts, TC broadcasts) is re-verified independently (distinct members, quorum stake, every signature valid for one (block, round) resp. (round, high-QC round)); no TC is sent twice to a peer.",
+   note="The exactly-when half is decided in the puppet world."),
 }
 
 NOT_APPLICABLE = {
